@@ -89,13 +89,14 @@ pub fn hint_menu(len: usize, huge: bool) -> Vec<Hint> {
 }
 
 /// extend(seq) on the same receiver with every legal hint: contents must not depend on the hint.
-pub fn extend_differential<H: HB>(q: &AnyQ<H>, m: &Model, universe: &[u32], seqs: &[Vec<Pair>], huge: bool) -> Result<u64, (Op, String)> {
+pub fn extend_differential<H: HB>(q: &AnyQ<H>, m: &Model, universe: &[u32], seqs: &[Vec<Pair>], huge: bool, on_case: &dyn Fn(&Op)) -> Result<u64, (Op, String)> {
     let mut cases = 0;
     for seq in seqs {
         let mut first: Option<(Hint, Model)> = None;
         for h in hint_menu(seq.len(), huge) {
             cases += 1;
             let op = Op::Extend(seq.clone(), h);
+            on_case(&op);
             let ap = apply(q, false, m, &op, universe).map_err(|e| (op.clone(), e))?;
             match &first {
                 None => first = Some((h, ap.model)),
